@@ -523,6 +523,13 @@ func (u *Unit) pureGoCallTerms(key string, fn *types.Func, ts []Term) (Term, boo
 		return Term{}, false
 	}
 	name := "gofn." + sanitize(u.pkg.Name+"."+key)
+	// pointer arguments are represented by their pointees: a pure function depends on the values only
+	ts = append([]Term{}, ts...)
+	for i := range ts {
+		if ts[i].Sort.Kind == KPtr {
+			ts[i] = u.c.ptrVal(ts[i])
+		}
+	}
 	rs := u.c.sortOf(sig.Results().At(0).Type())
 	if !u.c.declared[name] {
 		u.c.declared[name] = true
